@@ -24,7 +24,8 @@ FUNCS = [
 def configs(tier):
     if tier == "quick":
         return [dict(c, query_timeout_s=150) for c in [dict(T=1, nmax=5, variant="plain"), dict(T=1, nmax=5, variant="values", none_inputs=True), dict(T=1, nmax=5, variant="fail"), dict(T=1, nmax=7, variant="early"),
-                dict(T=2, nmax=2, variant="plain"), dict(T=2, nmax=2, variant="fail"), dict(T=2, nmax=2, variant="early")]]
+                dict(T=2, nmax=2, variant="plain"), dict(T=2, nmax=2, variant="fail"), dict(T=2, nmax=2, variant="early"),
+                dict(T=1, nmax=1, variant="early")]]  # the last: tiny, stays decidable when racy probes blow the other summaries up
     return [dict(T=1, nmax=7, variant=v) for v in ("plain", "fail", "early")] + [dict(T=1, nmax=6, variant="values", none_inputs=True),
                                                                                   dict(T=2, nmax=2, variant="values", none_inputs=True)] + \
            [dict(T=2, nmax=3, variant=v) for v in ("plain", "fail", "early")] + \
@@ -247,6 +248,9 @@ def replay(case):
         if kind == "failure-not-surfaced" and not r["hung"] and r["raised"] is None and sch.get("failing_input") is not None \
                 and 0 <= sch["failing_input"] < n:
             return True, f"real LazyPool ended normally although input {sch['failing_input']} failed; yielded {sorted(r['emitted'])}"
+        if kind.startswith("pool-not-reusable") and (r.get("pool_state_ok") is False or r.get("foreign_exception")):
+            return True, (f"real LazyPool with real threads following the schedule: pool left in a state that cannot be reused "
+                          f"(state ok: {r.get('pool_state_ok')}); exception reaching the caller: {r.get('foreign_exception')}")
         if kind.startswith("pool-not-reusable") or kind.startswith("read-ahead"):
             ok, detail = _reuse_and_readahead(sch)
             if not ok:
